@@ -65,10 +65,10 @@ def B := asciiB "b:80"
     a held request keeps the service object it looked up before a redeploy made during the
     pause, and is forwarded to the replaced target on resume … -/
 def f2_held_uses_replaced : List Op :=
-  [.deploy 1 s1 false [A] 2000000000 700000000,
+  [.deploy 1 s1 s1 false [A] 2000000000 700000000,
    .pause 2 s1 700000000 30000000000,
    .req 1 s1 [] false,
-   .deploy 3 s1 false [B] 2000000000 700000000,
+   .deploy 3 s1 s1 false [B] 2000000000 700000000,
    .resume 4 s1]
 
 theorem C07_witness_held_request_uses_replaced_service :
@@ -77,7 +77,7 @@ theorem C07_witness_held_request_uses_replaced_service :
 /-- … and a request that passed the gate just before the pause claims while the pause's drain is
     running and is refused with 503. -/
 def f2_refused_by_pause : List Op :=
-  [.hold A true, .deploy 1 s1 false [A] 2000000000 700000000,
+  [.hold A true, .deploy 1 s1 s1 false [A] 2000000000 700000000,
    .req 1 s1 [] false,
    .arm "req.gated", .req 2 s1 [] false, .disarm "req.gated",
    .pause 2 s1 700000000 30000000000,
@@ -87,16 +87,16 @@ theorem C07_witness_refused_by_pause :
     (runOps f2_refused_by_pause).events.contains "done r2 status=503 by=-" = true := by decide +kernel
 
 -- tests by evaluation: held then resumed / stopped / timed out exactly at its deadline
-example : ((runOps [.deploy 1 s1 false [A] 2000000000 700000000, .pause 2 s1 700000000 900000000,
+example : ((runOps [.deploy 1 s1 s1 false [A] 2000000000 700000000, .pause 2 s1 700000000 900000000,
     .req 1 s1 [] false, .advance 899999999, .req 2 s1 [] true]).events.filter (·.startsWith "done")) =
     ["done r2 status=200 by=-"] := by decide +kernel
-example : ((runOps [.deploy 1 s1 false [A] 2000000000 700000000, .pause 2 s1 700000000 900000000,
+example : ((runOps [.deploy 1 s1 s1 false [A] 2000000000 700000000, .pause 2 s1 700000000 900000000,
     .req 1 s1 [] false, .advance 900000000]).events.filter (·.startsWith "done")) = ["done r1 status=504 by=-"] := by
   decide +kernel
-example : ((runOps [.deploy 1 s1 false [A] 2000000000 700000000, .pause 2 s1 700000000 900000000,
+example : ((runOps [.deploy 1 s1 s1 false [A] 2000000000 700000000, .pause 2 s1 700000000 900000000,
     .req 1 s1 [] false, .advance 500000000, .stop 3 s1 700000000 (asciiB "bye")]).events.filter (·.startsWith "done")) =
     ["done r1 status=503 by=-"] := by decide +kernel
-example : ((runOps [.deploy 1 s1 false [A] 2000000000 700000000, .pause 2 s1 700000000 900000000,
+example : ((runOps [.deploy 1 s1 s1 false [A] 2000000000 700000000, .pause 2 s1 700000000 900000000,
     .req 1 s1 [] false, .advance 500000000, .resume 3 s1]).events.filter (·.startsWith "done")) =
     ["done r1 status=200 by=a:80"] := by decide +kernel
 
